@@ -1,10 +1,10 @@
 /-
   C09 — matrix constructors, part B: `MultivariateNormal::new` / `new_from_nalgebra` and
   `MultivariateStudent::new` / `new_from_nalgebra` (hand models in Statrs/Model/Multivariate.lean).
-  Conventions as in VectorConstructorsA.lean; domains in Statrs/Draft/C09/VectorDomain.lean.
+  Conventions as in VectorConstructorsA.lean; domains in Statrs/Spec/VectorDomain.lean.
 
   The positive-definiteness requirement is, by definition here, "nalgebra's `Cholesky::new`
-  succeeds" (`LA.choleskyNew cov ≠ none`); Statrs/Draft/C09/Cholesky.lean proves that for real 1×1
+  succeeds" (`LA.choleskyNew cov ≠ none`); Statrs/Props/C09/Cholesky.lean proves that for real 1×1
   and 2×2 matrices this is positive-definiteness.
 
   For each family:
@@ -30,7 +30,7 @@
     * the test `cov.iter().any(|f| f.is_nan())` is dead code: a NaN entry already fails the
       symmetry comparison (`mvn_cov_nan_check_redundant`).
 -/
-import Statrs.Draft.C09.VectorDomain
+import Statrs.Spec.VectorDomain
 set_option linter.unusedSectionVars false
 set_option linter.unusedVariables false
 namespace Statrs.Props.C09
